@@ -266,6 +266,41 @@ type Rig struct {
 	r      *fw.Run
 	path   string
 	tainted bool // a round found connections that were never released
+	hmu     sync.Mutex
+	waits   map[string]chan struct{}
+}
+
+// waitCh returns the channel a handler step {op: hook, name: "wait:<x>"} blocks on until Release(x).
+func (g *Rig) waitCh(name string) chan struct{} {
+	g.hmu.Lock()
+	defer g.hmu.Unlock()
+	if g.waits == nil {
+		g.waits = map[string]chan struct{}{}
+	}
+	ch := g.waits[name]
+	if ch == nil {
+		ch = make(chan struct{})
+		g.waits[name] = ch
+	}
+	return ch
+}
+
+func (g *Rig) Release(name string) {
+	ch := g.waitCh(name)
+	select {
+	case <-ch:
+	default:
+		close(ch)
+	}
+}
+
+func (g *Rig) hook(name string) {
+	if strings.HasPrefix(name, "wait:") {
+		select {
+		case <-g.waitCh(name):
+		case <-time.After(60 * time.Second):
+		}
+	}
 }
 
 func defaultDesc(name string) string {
@@ -289,7 +324,7 @@ func newRig(r *fw.Run, o RigOpt) (*Rig, error) {
 		if d, ok := o.Descs[n]; ok {
 			desc = d
 		}
-		if err := svc.RegisterInterface(&ScriptDisp{Name: n, Desc: desc, Log: g.Log}); err != nil {
+		if err := svc.RegisterInterface(&ScriptDisp{Name: n, Desc: desc, Log: g.Log, Hook: g.hook}); err != nil {
 			return nil, fmt.Errorf("register %q: %v", n, err)
 		}
 		g.Reg.Names = append(g.Reg.Names, n)
